@@ -89,8 +89,9 @@ def oracle(s, r):
         stats["columns"] = stats.get("columns", 0) + 2 * N + 8
     stats["worst_control_coarse_rows"] = control
     stats["variants"] = len(names)
-    if len(names) < 4:
-        viols.append(("missing-variants", "expected 4 extrapolated smoother variants, got %d" % len(names), {}))
+    if len(names) < 10:
+        viols.append(("missing-variants", "expected 10 extrapolated smoother variants (give x 4 cache combinations + take, 1 and 3 threads), "
+                      "got %d" % len(names), {}))
     return viols, stats
 
 
